@@ -21,6 +21,7 @@ EPS = 1e-3
 
 ASPECT_OWNERS = {
     "replay": {"C01"},
+    "replay-leak": {"C01", "C02"},
     "msg-rows": {"C01", "C08", "C13"},
     "fanout": {"C02"},
     "stray-frame": {"C02"},
@@ -49,7 +50,7 @@ ASPECT_OWNERS = {
 # that does not own them counts the mismatch and carries on
 SOFT = {"usage", "current", "blur", "list", "timer"}
 # mismatches of frames that carry no state (deliveries, replays)
-ANSWER_ONLY = {"fanout", "replay", "stray-frame"}
+ANSWER_ONLY = {"fanout", "replay", "replay-leak", "stray-frame"}
 # mismatches of the *stored state* (not of an answer)
 STATE_ASPECTS = {"expiry-lost-messages", "np-life", "mb-life", "msg-rows", "orphan-rows", "expiry-safety", "expiry-liveness", "expiry-collateral", "np-dup"}
 
@@ -564,7 +565,9 @@ class ModelObserver(Observer):
             mb = MMailbox(app, mid, False, t)
             self.mb[key] = mb
             mb.sides[S] = MSide(S, t)
-            if msgs or len(fs) != 0:
+            if msgs:
+                self.mm("replay-leak", "open of mailbox id %r, which does not exist in app %r, was sent %r" % (mid, app, msgs[:3]))
+            if len(fs) != 0:
                 self.mm("replay", "open of a mailbox id that does not exist replayed %r" % (fs,))
             self.subscribe(cid, mb, S)
             self.note("open_new")
@@ -589,6 +592,9 @@ class ModelObserver(Observer):
         got = sorted(((f.get("side"), f.get("phase"), f.get("body"), f.get("id")) for f in msgs), key=fkey)
         want = sorted(mb.msgs, key=fkey)
         if got != want:
+            foreign = [g for g in got if g not in want]
+            if foreign:
+                self.mm("replay-leak", "open of %r (app %r) was sent %r, which no one added to this mailbox of this app (stored: %r)" % (mid, app, foreign[:3], want[:3]))
             self.mm("replay", "open of %r replayed %r, stored messages are %r" % (mid, got, want))
         if want:
             self.note("replayed_nonempty")
